@@ -211,6 +211,10 @@ func genC16(t *Tape) (*SrvScenario, int) {
 			}
 		}
 	}
+	if !sc.Conns[subject].AbortMid && t.Chance(1, 6) {
+		// the subject client stops reading in the middle of one reply: the server's write times out after a partial delivery
+		sc.Conns[subject].StallAtReply = 1 + t.Choose(len(sc.Conns[subject].Reqs))
+	}
 	sc.ReadTimeout = []time.Duration{0, time.Millisecond, 20 * time.Millisecond}[t.Choose(3)]
 	sc.ReplyTimeout = 300 * time.Millisecond
 	sc.SharedHandlerErr = t.Choose(2) == 1
@@ -223,6 +227,17 @@ func runC16(rc *RunCtx) {
 	sc, subject := genC16(t)
 	devSeed := uint64(t.Choose(1 << 30))
 	alone := t.Choose(len(sc.Conns[subject].Reqs))
+	if rc.Race {
+		// race mode: the scenario runs with free goroutines under the race detector; a data race or a crash ends the process
+		sc.Race = true
+		out := RunSrv(rc, sc, rc.Sched, devSeed, nil)
+		rc.Nontrivial = true
+		rc.Probe(fmt.Sprintf("race|conns=%d", len(sc.Conns)))
+		for _, p := range out.Panics {
+			rc.Violate("panic", "harness_task", "panic in %s: %s", p.Task, p.Value)
+		}
+		return
+	}
 	a := len(rc.Sched.Rec)
 	out := RunSrv(rc, sc, rc.Sched, devSeed, nil)
 	rec := append([]int32(nil), rc.Sched.Rec[a:]...)
@@ -249,8 +264,31 @@ func runC16(rc *RunCtx) {
 		return
 	}
 
+	// --- a reply cut short by a write timeout ends that connection: anything written after it could not be framed by the client ---
+	if subj.StallAtReply > 0 && out.SubjectSrv != nil {
+		cut := -1
+		for i, r := range out.SubjectSrv.Rec {
+			if r.Kind == "write" && r.Err != nil && r.N > 0 {
+				cut = i
+			} else if cut >= 0 && r.Kind == "write" && r.Err == nil && r.N > 0 {
+				rc.Violate("write_after_truncated_reply", "subject", "reply #%d was cut short by a write timeout (%d bytes delivered), yet the server went on to write %x on the same connection", subj.StallAtReply, out.SubjectSrv.Rec[cut].N, trunc(r.Data, 16))
+				break
+			}
+		}
+		if cut >= 0 {
+			rc.Fault("reply_write_timeout", true)
+		} else {
+			rc.Fault("reply_write_timeout", false)
+		}
+	}
 	// --- replies on the subject connection, request by request (lock-step) ---
 	co := out.Conns[subject]
+	if subj.StallAtReply > 0 {
+		// the byte stream of this connection is truncated by the injected fault: per-reply checks stop before the stalled reply
+		if n := subj.StallAtReply - 1; n < len(co.Status) {
+			co.Status = co.Status[:n]
+		}
+	}
 	afterMalformed := false
 	prev := 0
 	for k, r := range subj.Reqs {
